@@ -167,9 +167,15 @@ def gen_project(rng, k=None):
             if c < 0.4:
                 r["leaves"] = [[rng.choice(["annual", "sick", "special"]), a, None]]
             elif c < 0.6:
+                if pick(rng, 0.2):          # a leave that begins before the project start (finding F45)
+                    a = (start // D) * D - rng.choice([1, 2, 3]) * D
                 r["leaves"] = [["annual", a, a + rng.choice([1, 2, 5]) * D]]
             elif c < 0.8:
-                r["vacations"] = [[a, None if pick(rng, 0.5) else a + 2 * D]]
+                if pick(rng, 0.2):
+                    a = (start // D) * D - rng.choice([1, 2]) * D
+                    r["vacations"] = [[a, a + rng.choice([2, 4]) * D]]
+                else:
+                    r["vacations"] = [[a, None if pick(rng, 0.5) else a + 2 * D]]
             else:
                 hh = rng.choice([9, 10, 13]) * H
                 r["bookings"] = [[a + hh, rng.choice(["2h", "3h", "90min"] if not k.aligned_only else ["2h", "3h", "4h"])]]
